@@ -119,7 +119,7 @@ class TimeTriggerDecorator(TriggerDecorator):
                 )
                 if time_next is None:
                     _LOGGER.debug("trigger %s finished", self.name)
-                    if isinstance(self.dm, WaitUntilDecoratorManager):
+                    if isinstance(self.dm, WaitUntilDecoratorManager) and len(self.dm.get_decorators()) == 1:
                         await self.dispatch(DispatchData({"trigger_type": "none"}))
                     break
 
